@@ -789,6 +789,12 @@ pub fn run_check(engine: &'static dyn Engine, opts: &Opts) -> CheckOutcome {
         // confirm in a fresh process, minimise, confirm again
         let confirmed = match exec_child(engine, t, "confirm") {
             Ok(Some(v2)) if v2.invariant == v.invariant => true,
+            Ok(other) if v.invariant.ends_with(".slow") => {
+                // timing reports must reproduce when the case runs alone; one that does not is
+                // scheduling noise and is dropped (never an alarm, never a harness error)
+                println!("note: run {} reported {} under load but not when re-executed alone ({:?}); dropped", run, v.invariant, other.map(|x| x.invariant));
+                false
+            }
             Ok(other) => {
                 eprintln!(
                     "harness error: run {} reported {} in the worker but {:?} when re-executed alone",
